@@ -17,18 +17,21 @@ def H(name, test, driver, n):
 SPEC = Spec(
     pid="C07",
     lean_modules=["OtelVerif.Props.C07"],
-    translators=[go_translator("pdatacensus", "OtelVerif/Gen/PdataCensus.lean")],
+    translators=[go_translator("pdatacensus", "OtelVerif/Gen/PdataCensus.lean"),
+                 go_translator("pdatamsg", "OtelVerif/Gen/PdataMsg.lean")],
     harnesses=[
-        H("witness", "TestVerifC07Witness", None, {"quick": 7, "thorough": 7}),
-        H("ptrslice", "TestVerifC07PtrSlice", "drv_c07", {"quick": 20000, "thorough": 100000}),
+        H("witness", "TestVerifC07Witness", None, {"quick": 8, "thorough": 8}),
+        H("ptrslice", "TestVerifC07PtrSlice", "drv_c07", {"quick": 12000, "thorough": 100000}),
         Harness(name="map", module="pdata", pkg="pdata/pcommon", files={"zz_verif_c07_map_test.go": "c07/map_test.go"},
-                test="TestVerifC07Map", driver="drv_c07", n={"quick": 20000, "thorough": 150000}),
+                test="TestVerifC07Map", driver="drv_c07", n={"quick": 12000, "thorough": 150000}),
         Harness(name="nest", module="pdata", pkg="pdata/pcommon", files={"zz_verif_c07_nest_test.go": "c07/nest_test.go"},
-                test="TestVerifC07Nest", driver="drv_c07", n={"quick": 8000, "thorough": 80000}),
-        H("tree", "TestVerifC07Tree", None, {"quick": 12000, "thorough": 120000}),
-        H("metric", "TestVerifC07Metric", None, {"quick": 12000, "thorough": 150000}),
+                test="TestVerifC07Nest", driver="drv_c07", n={"quick": 6000, "thorough": 80000}),
+        Harness(name="prim", module="pdata", pkg="pdata/pcommon", files={"zz_verif_c07_prim_test.go": "c07/prim_test.go"},
+                test="TestVerifC07Prim", driver="drv_c07", n={"quick": 5000, "thorough": 80000}),
+        H("tree", "TestVerifC07Tree", None, {"quick": 5000, "thorough": 100000}),
+        H("metric", "TestVerifC07Metric", None, {"quick": 8000, "thorough": 150000}),
     ],
-    rule="witness: 7 scripted corpus cases (the reproduced defects and the seeded-change targets), each with a direct oracle. "
+    rule="witness: 8 scripted corpus cases (the reproduced defects and the seeded-change targets), each with a direct oracle. "
          "ptrslice (exact differential against the Lean heap model + Lean oracle on the implementation's observations): corpus of 4 "
          "scripted programs, then random programs of 1-40 ops (append, set, remove-if by index pattern, ensure-capacity, sort, copy-to, "
          "move-and-append-to, mark-read-only) over 2-4 plog.LogRecordSlice handles, content and cap of every handle observed after every "
@@ -37,6 +40,13 @@ SPEC = Spec(
          "map (exact differential against the Lean heap model of pcommon.Map + Lean oracle): corpus of 4 scripted programs, then random "
          "programs of 1-40 ops (PutInt/PutStr/PutEmpty/PutEmptyBytes+FromRaw, in-place ByteSlice.Append, Remove, RemoveIf, EnsureCapacity, "
          "Clear, CopyTo, MoveTo, read-only) over 2-4 maps with keys from a pool of 6; non-trivial as for ptrslice. "
+         "nest (exact differential against the Lean nested heap model): corpus of 2 scripted programs, then random programs of 5-50 ops "
+         "(Set*/Put*/AppendEmpty with scalars, bytes, empty maps and slices at random positions, in-place bytes append, Remove, RemoveIf, "
+         "EnsureCapacity, Clear, Value.CopyTo between disjoint positions at any depth, Map.CopyTo/Slice.CopyTo between disjoint containers, "
+         "Value.MoveTo between roots, read-only) over 2-4 root pcommon.Values nested up to depth 10; the dump of every root including the "
+         "capacity of every nested container is compared after every op; non-trivial = contains a copy. "
+         "prim (exact differential + Lean oracle): random programs over 2-4 pcommon.UInt64Slice (Append, SetAt, EnsureCapacity, FromRaw, "
+         "CopyTo, MoveTo, read-only); non-trivial = a copy into a destination with spare capacity. "
          "tree (plain-Go reference model, no Lean model): 5-45 random public ops at random positions of 2-3 randomly filled plog.Logs "
          "(copy-to / move-to / move-and-append-to between disjoint positions of the same kind at any level: resource/scope/record slices "
          "and messages, attribute maps, values, value slices; remove, remove-if, ensure-capacity, append, Set*/Put*/FromRaw, mark-read-only), "
@@ -50,12 +60,19 @@ SPEC = Spec(
         "hand-written heap model of pcommon.Map (map.go + the parts of value.go it uses) for empty / scalar / bytes values: bytes one-of "
         "wrappers on the heap, scalar wrappers by value (every Set* allocates a new wrapper: watched by the differential and witness case 4); "
         "tied by exact differential (entries in Range order + capacity of every handle after every op) on every run",
+        "hand-written nested heap model of pcommon.Value/Map/Slice (kvlist/array/bytes wrappers on the heap, value-slice struct copies), "
+        "containers addressed by object id, paths of the harness resolved by the driver at call time; tied by exact differential incl. the "
+        "capacity of every nested container; the element loop writes the destination header back at the end (equal to in-place writes "
+        "under the separation hypothesis)",
+        "hand-written model of primitive slices (copyX = append(dst[:0], src...)), tied by exact differential on pcommon.UInt64Slice",
+        "translator translators/cmd/pdatamsg (go/ast): reads the statement shapes of every generated message CopyTo/MoveTo (four known "
+        "shapes, else failure), the setters/wrapper getters of the struct, and counts the optional/one-of descriptions in the generator tables",
         "representation: a slice header owns its backing array, split at len into live pointers and an arbitrary tail; nil slice = cap 0",
         "Go's append growth policy is an input (capacity observed after the call)",
         "translator translators/cmd/pdatacensus (go/ast): classifies exported value-receiver methods of pdata wrapper types by a syntactic "
         "rule (writes through an expression containing `orig` / mutator name pattern / first statement is AssertMutable)",
-        "nested elements, nested maps/arrays inside values, pcommon.Slice, value slices, primitive slices, message structs with optional/one-of "
-        "fields, pmetric: NOT modelled in Lean; checked by Go reference-model oracles only (tree, metric, witness harnesses); ptrace/pprofile share the templates "
+        "generated value slices with inline containers (ExemplarSlice, AttributeTableSlice), pointer-slice elements owning maps/slices, nested "
+        "message fields, nested moves: NOT modelled in Lean; checked by Go reference-model oracles only (tree, metric, witness harnesses); ptrace/pprofile share the templates "
         "and are not exercised separately",
         "the driver re-tabulates the heap function after every step (extensionally equal on allocated ids)",
     ],
